@@ -220,28 +220,52 @@ func v2Queue(dir string, tgt module.DeliveryTarget, retry time.Duration) *Queue 
 	return q
 }
 
-func v2WaitQuiet(dir string, maxWait time.Duration) {
+// v2WaitQuiet waits until the queue has nothing left to do: nothing scheduled on the wheel, no
+// attempt holding the delivery semaphore, no stored message that the queue can still load (such a
+// message is always either being attempted or scheduled), and a directory listing that stayed
+// the same over several polls.  Under load an attempt can be scheduled long after the
+// directory went quiet, so the listing alone is not a criterion.  On a queue that never finishes
+// a message the deadline ends the wait and the comparison with the model reports it.
+func v2WaitQuiet(q *Queue, dir string, maxWait time.Duration) {
 	deadline := time.Now().Add(maxWait)
 	last := ""
 	stable := 0
 	for time.Now().Before(deadline) {
 		entries, _ := os.ReadDir(dir)
 		var names []string
-		hasMeta := false
+		have := map[string]bool{}
 		for _, e := range entries {
 			names = append(names, e.Name())
-			if strings.HasSuffix(e.Name(), ".meta") {
-				hasMeta = true
-			}
+			have[e.Name()] = true
 		}
 		cur := strings.Join(names, ",")
-		if !hasMeta {
-			time.Sleep(3 * time.Millisecond)
-			return
+		busy := false
+		q.wheel.slotsLock.Lock()
+		if q.wheel.slots.Len() != 0 {
+			busy = true
 		}
-		if cur == last {
+		q.wheel.slotsLock.Unlock()
+		if len(q.deliverySemaphore) != 0 {
+			busy = true
+		}
+		if !busy {
+			for _, n := range names {
+				if !strings.HasSuffix(n, ".meta") {
+					continue
+				}
+				id := strings.TrimSuffix(n, ".meta")
+				if !have[id+".header"] || !have[id+".body"] {
+					busy = true // dangling: the start-up scan removes it
+					continue
+				}
+				if m, err := q.readMessageMeta(id); err == nil && m != nil && len(m.To) > 0 {
+					busy = true // loadable: an attempt is due
+				}
+			}
+		}
+		if !busy && cur == last {
 			stable++
-			if stable > 25 {
+			if stable > 8 {
 				return
 			}
 		} else {
@@ -403,10 +427,10 @@ func TestVerif_C02(t *testing.T) {
 				verifos.Mark("accepted " + m.id)
 			}
 			if !sc.gap {
-				v2WaitQuiet(src, 3*time.Second)
+				v2WaitQuiet(q, src, 3*time.Second)
 			}
 		}
-		v2WaitQuiet(src, 5*time.Second)
+		v2WaitQuiet(q, src, 5*time.Second)
 		q.Close()
 		ops := verifos.Log()
 		verifos.Reset(false)
@@ -496,7 +520,7 @@ func TestVerif_C02(t *testing.T) {
 			rec := &v2Rec{failFirst: ci%2 == 1}
 			verifos.Reset(true)
 			q2 := v2Queue(dir, rec, 0)
-			v2WaitQuiet(dir, 3*time.Second)
+			v2WaitQuiet(q2, dir, 3*time.Second)
 			q2.Close()
 			var recFailed []string
 			for _, o := range verifos.Log() {
